@@ -100,6 +100,8 @@ pub enum Expr {
     Lam(Vec<(String, Ty)>, Box<Expr>),
     Try(Box<Expr>),
     Unwrap(Box<Expr>),
+    /// `task { … }` (body is a `Block`); only produced by the nesting stream (no reference semantics)
+    Task(Box<Expr>),
 }
 
 #[derive(Clone, Debug, PartialEq)]
@@ -293,6 +295,7 @@ pub fn expr_src(e: &Expr, p: &Program, lvl: usize) -> String {
         ),
         Expr::Try(a) => format!("{}?", expr_src(a, p, lvl)),
         Expr::Unwrap(a) => format!("{}!", expr_src(a, p, lvl)),
+        Expr::Task(b) => format!("task {}", expr_src(b, p, lvl)),
     }
 }
 
@@ -448,6 +451,7 @@ pub fn expr_sx(e: &Expr) -> String {
         Expr::Lam(ps, b) => format!("( lam ( params {} ) {} )", ps.iter().map(|(x, _)| x.clone()).collect::<Vec<_>>().join(" "), expr_sx(b)),
         Expr::Try(a) => format!("( try {} )", expr_sx(a)),
         Expr::Unwrap(a) => format!("( unwrap {} )", expr_sx(a)),
+        Expr::Task(b) => format!("( task {} )", expr_sx(b)),
     }
 }
 pub fn stmt_sx(s: &Stmt) -> String {
@@ -526,6 +530,10 @@ pub struct GenOpts {
     pub avoid_never_value: bool,
     /// `for` binders never shadow (N4: the binding leaks into the enclosing scope)
     pub avoid_for_shadow: bool,
+    /// more lambda-typed variables and more calls through them (C19 stream)
+    pub lambda_boost: bool,
+    /// no variable of type void (every binder owns a slot: the analysis tie compares slot counts)
+    pub no_unit_vars: bool,
     /// more `?` / `!` and more option/result functions (C23 stream)
     pub try_boost: bool,
     /// allow `task`-free nesting stress (functions/lambdas/loops) — used by the C03 stream
@@ -534,7 +542,7 @@ pub struct GenOpts {
 
 impl Default for GenOpts {
     fn default() -> Self {
-        GenOpts { tier: 0, stmts: 8, budget: 60, depth_safe: true, deep_capture: false, big_ints: 3, avoid_scrutinee_bugs: true, avoid_void_assign: true, avoid_for_shadow: true, avoid_captured_target: true, avoid_never_value: true, try_boost: false, nesting: false }
+        GenOpts { tier: 0, stmts: 8, budget: 60, depth_safe: true, deep_capture: false, big_ints: 3, avoid_scrutinee_bugs: true, avoid_void_assign: true, avoid_for_shadow: true, avoid_captured_target: true, avoid_never_value: true, try_boost: false, lambda_boost: false, no_unit_vars: false, nesting: false }
     }
 }
 
@@ -697,7 +705,7 @@ impl<'a> Gen<'a> {
         }
     }
     fn elem_ty(&mut self) -> Ty {
-        if self.rng.chance(1, 12) { Ty::Unit } else { self.scalar() }
+        if !self.o.no_unit_vars && self.rng.chance(1, 12) { Ty::Unit } else { self.scalar() }
     }
     /// a type for a new variable
     fn var_ty(&mut self) -> Ty {
@@ -705,7 +713,7 @@ impl<'a> Gen<'a> {
         if t == 0 {
             return self.scalar();
         }
-        let r = self.rng.below(100);
+        let r = if (self.o.nesting || self.o.lambda_boost) && t >= 3 && self.rng.chance(1, 3) { 98 } else { self.rng.below(100) };
         match r {
             0..=44 => self.scalar(),
             45..=54 => {
@@ -719,6 +727,7 @@ impl<'a> Gen<'a> {
                     0..=4 => Ty::Int,
                     5 => Ty::Str,
                     6 => Ty::Bool,
+                    _ if self.o.no_unit_vars => Ty::Int,
                     _ => Ty::Unit,
                 };
                 Ty::Array(Box::new(e))
@@ -727,12 +736,14 @@ impl<'a> Gen<'a> {
                 let e = match self.rng.below(6) {
                     0..=3 => Ty::Int,
                     4 => Ty::Str,
+                    _ if self.o.no_unit_vars => Ty::Int,
                     _ => Ty::Unit,
                 };
                 Ty::Opt(Box::new(e))
             }
             94..=96 if t >= 2 => Ty::Res(Box::new(Ty::Int)),
             97..=99 if t >= 3 => self.fn_ty(),
+            _ if self.o.no_unit_vars => Ty::Int,
             _ => Ty::Unit,
         }
     }
@@ -803,7 +814,7 @@ impl<'a> Gen<'a> {
                     return e;
                 }
             }
-            if r < 33 && self.tier() >= 3 {
+            if (r < 33 || (self.o.lambda_boost && r < 60)) && self.tier() >= 3 {
                 if let Some(e) = self.callv_expr(ty, d) {
                     return e;
                 }
@@ -1465,8 +1476,31 @@ impl<'a> Gen<'a> {
                 self.hit("block_stmt");
                 Stmt::Expr(self.block_expr(&Ty::Unit, d.max(1)))
             }
+            95..=99 if self.o.nesting && d > 0 => self.task_stmt(d),
             _ => self.let_stmt(d),
         }
+    }
+
+    /// `task { … }`: a separate function (like a lambda without parameters): sees the enclosing variables
+    /// as captured copies, cannot assign them, cannot break out of an enclosing loop
+    fn task_stmt(&mut self, d: u32) -> Stmt {
+        let saved = (self.loop_depth, self.depth, self.ret_ty.clone(), self.capture_floor, self.visible_floor, self.in_for_arr);
+        let saved_scrut = self.scrut_mode;
+        self.scrut_mode = false;
+        self.loop_depth = 0;
+        self.depth = 0;
+        self.in_for_arr = 0;
+        self.ret_ty = None;
+        self.scopes.push(vec![]);
+        self.capture_floor = self.scopes.len() - 1;
+        self.lambda_depth += 1;
+        let body = self.block_expr(&Ty::Unit, d.max(1));
+        self.lambda_depth -= 1;
+        self.scopes.pop();
+        (self.loop_depth, self.depth, self.ret_ty, self.capture_floor, self.visible_floor, self.in_for_arr) = saved;
+        self.scrut_mode = saved_scrut;
+        self.hit("task");
+        Stmt::Expr(Expr::Task(Box::new(body)))
     }
 
     fn let_stmt(&mut self, d: u32) -> Stmt {
@@ -1682,7 +1716,7 @@ impl<'a> Gen<'a> {
             let nf = 1 + self.rng.below(3) as usize;
             let mut fields = vec![];
             for j in 0..nf {
-                let t = if self.rng.chance(1, 10) { Ty::Unit } else if self.rng.chance(1, 8) { Ty::Array(Box::new(Ty::Int)) } else { self.scalar() };
+                let t = if !self.o.no_unit_vars && self.rng.chance(1, 10) { Ty::Unit } else if self.rng.chance(1, 8) { Ty::Array(Box::new(Ty::Int)) } else { self.scalar() };
                 fields.push((format!("f{j}"), t));
             }
             self.prog.structs.push(StructDef { name: format!("St{k}"), fields });
@@ -2043,6 +2077,13 @@ fn shrink_expr(e: &Expr, out: &mut Vec<Expr>) {
                 out.push(Expr::Unwrap(b(x)));
             }
         }
+        Expr::Task(a) => {
+            for x in sub(a) {
+                if matches!(x, Expr::Block(_)) {
+                    out.push(Expr::Task(b(x)));
+                }
+            }
+        }
     }
 }
 
@@ -2075,6 +2116,210 @@ pub fn shrink_candidates(p: &Program) -> Vec<Program> {
         }
     }
     out
+}
+
+// ------------------------------------------------------------------------------------------------
+// resolution: the generator's AST with every variable use replaced by the id of its binder
+// (S-expression for the `analysis` driver, lean/AbraModel/Drv/Analysis.lean)
+// ------------------------------------------------------------------------------------------------
+pub struct Resolver {
+    env: Vec<(String, usize)>,
+    next: usize,
+    pub calls: Vec<String>,
+}
+
+impl Resolver {
+    pub fn new() -> Self {
+        Resolver { env: vec![], next: 1, calls: vec![] }
+    }
+    fn fresh(&mut self, name: &str) -> usize {
+        let id = self.next;
+        self.next += 1;
+        self.env.push((name.to_string(), id));
+        id
+    }
+    fn fresh_hidden(&mut self) -> usize {
+        let id = self.next;
+        self.next += 1;
+        id
+    }
+    fn lookup(&self, name: &str) -> Option<usize> {
+        self.env.iter().rev().find(|(n, _)| n == name).map(|(_, i)| *i)
+    }
+    fn pat_names(p: &Pat, out: &mut Vec<String>) {
+        match p {
+            Pat::Bind(x) => out.push(x.clone()),
+            Pat::Tuple(ps) | Pat::Struct(_, ps) | Pat::Variant(_, ps) => ps.iter().for_each(|p| Self::pat_names(p, out)),
+            _ => {}
+        }
+    }
+    fn bind_pat(&mut self, p: &Pat) -> String {
+        let mut names = vec![];
+        Self::pat_names(p, &mut names);
+        let ids: Vec<String> = names.iter().map(|n| self.fresh(n).to_string()).collect();
+        format!("( ids {} )", ids.join(" "))
+    }
+    fn op(&mut self, es: &[&Expr]) -> String {
+        let parts: Vec<String> = es.iter().map(|e| self.expr(e)).collect();
+        format!("( op {} )", parts.join(" "))
+    }
+    pub fn expr(&mut self, e: &Expr) -> String {
+        match e {
+            Expr::Int(_) | Expr::Bool(_) | Expr::Str(_) | Expr::Unit => "( lit )".into(),
+            Expr::Var(x) => match self.lookup(x) {
+                Some(i) => format!("( var {i} )"),
+                None => "( lit )".into(),
+            },
+            Expr::Un(_, a) | Expr::Print(a) | Expr::Len(a) | Expr::Pop(a) | Expr::Try(a) | Expr::Unwrap(a) | Expr::Field(a, _) => self.op(&[a]),
+            Expr::Bin(_, a, b) | Expr::Index(a, b) | Expr::Push(a, b) => self.op(&[a, b]),
+            Expr::Tuple(es) | Expr::Mk(_, es) | Expr::Variant(_, _, es) | Expr::Array(es) => self.op(&es.iter().collect::<Vec<_>>()),
+            Expr::Call(f, es) => {
+                self.calls.push(f.clone());
+                self.op(&es.iter().collect::<Vec<_>>())
+            }
+            Expr::CallV(f, es) => {
+                let mut v: Vec<&Expr> = es.iter().collect();
+                v.push(f);
+                self.op(&v)
+            }
+            Expr::If(c, t, f) => format!("( if {} {} {} )", self.expr(c), self.expr(t), self.expr(f)),
+            Expr::Block(ss) => {
+                let n = self.env.len();
+                let parts: Vec<String> = ss.iter().map(|s| self.stmt(s)).collect();
+                self.env.truncate(n);
+                format!("( block {} )", parts.join(" "))
+            }
+            Expr::Match(s, arms) => {
+                let sc = self.expr(s);
+                let mut parts = vec![];
+                for (p, body) in arms {
+                    let n = self.env.len();
+                    let ids = self.bind_pat(p);
+                    let b = self.expr(body);
+                    self.env.truncate(n);
+                    parts.push(format!("( arm {ids} {b} )"));
+                }
+                format!("( match {sc} {} )", parts.join(" "))
+            }
+            Expr::Lam(ps, body) => {
+                let n = self.env.len();
+                let ids: Vec<String> = ps.iter().map(|(x, _)| self.fresh(x).to_string()).collect();
+                let b = self.expr(body);
+                self.env.truncate(n);
+                format!("( lam ( params {} ) {b} )", ids.join(" "))
+            }
+            Expr::Task(body) => format!("( task {} )", self.expr(body)),
+        }
+    }
+    pub fn stmt(&mut self, s: &Stmt) -> String {
+        match s {
+            Stmt::Let(_, p, _, e) => {
+                let r = self.expr(e);
+                let ids = self.bind_pat(p);
+                format!("( let {ids} {r} )")
+            }
+            Stmt::Assign(x, _, e) => {
+                let r = self.expr(e);
+                match self.lookup(x) {
+                    Some(i) => format!("( assignv {i} {r} )"),
+                    None => format!("( expr {r} )"),
+                }
+            }
+            Stmt::AssignField(o, _, op, e) => {
+                // a compound form keeps the object in a hidden temporary that owns a slot
+                let temps = if *op != AsgOp::Set { format!("{}", self.fresh_hidden()) } else { String::new() };
+                let t = self.op(&[o]);
+                format!("( assignp ( ids {temps} ) {t} {} )", self.expr(e))
+            }
+            Stmt::AssignIndex(a, i, op, e) => {
+                let temps = if *op != AsgOp::Set { format!("{} {}", self.fresh_hidden(), self.fresh_hidden()) } else { String::new() };
+                let t = self.op(&[a, i]);
+                format!("( assignp ( ids {temps} ) {t} {} )", self.expr(e))
+            }
+            Stmt::Expr(e) => format!("( expr {} )", self.expr(e)),
+            Stmt::While(c, b) => {
+                let rc = self.expr(c);
+                let n = self.env.len();
+                let parts: Vec<String> = b.iter().map(|s| self.stmt(s)).collect();
+                self.env.truncate(n);
+                format!("( while {rc} {} )", parts.join(" "))
+            }
+            Stmt::For(p, it, b) => {
+                let ri = self.expr(it);
+                let n = self.env.len();
+                let ids = self.bind_pat(p);
+                let parts: Vec<String> = b.iter().map(|s| self.stmt(s)).collect();
+                self.env.truncate(n);
+                format!("( for {ids} {ri} {} )", parts.join(" "))
+            }
+            Stmt::Break => "( break )".into(),
+            Stmt::Continue => "( continue )".into(),
+            Stmt::Ret(e) => format!("( ret {} )", self.expr(e)),
+        }
+    }
+}
+
+/// `analysis` request for a program: `main` and every function reachable from it by calls
+pub fn analysis_request(p: &Program) -> String {
+    let mut bodies: Vec<String> = vec![];
+    let mut r = Resolver::new();
+    let main = r.expr(&Expr::Block(p.main.clone()));
+    bodies.push(format!("( body ( params ) {main} )"));
+    let mut todo: Vec<String> = std::mem::take(&mut r.calls);
+    let mut done: Vec<String> = vec![];
+    while let Some(f) = todo.pop() {
+        if done.contains(&f) {
+            continue;
+        }
+        done.push(f.clone());
+        if let Some(fd) = p.fns.iter().find(|d| d.name == f) {
+            let mut r = Resolver::new();
+            r.next = 100_000 * done.len();
+            let ids: Vec<String> = fd.params.iter().map(|(x, _)| r.fresh(x).to_string()).collect();
+            let b = r.expr(&fd.body);
+            bodies.push(format!("( body ( params {} ) {b} )", ids.join(" ")));
+            todo.extend(r.calls);
+        }
+    }
+    let s = format!("analysis ( bodies {} )", bodies.join(" "));
+    s.split_whitespace().collect::<Vec<_>>().join(" ")
+}
+
+/// the same observable read off the real unoptimised assembly: for every `make_closure n` / `spawn_task n L`
+/// the pair n : (operand of the `push_nil` that opens the function's code), sorted
+pub fn closures_of_assembly(lines: &[String]) -> String {
+    let t: Vec<&str> = lines.iter().map(|l| l.trim()).collect();
+    let label_pos = |name: &str| t.iter().position(|l| l.strip_suffix(':') == Some(name));
+    let nlocals = |name: &str| -> Option<usize> {
+        let i = label_pos(name)?;
+        t[i + 1..].iter().find(|l| !l.ends_with(':')).and_then(|l| l.strip_prefix("push_nil ")).and_then(|n| n.parse().ok())
+    };
+    let mut pairs: Vec<(usize, usize)> = vec![];
+    for (i, l) in t.iter().enumerate() {
+        if let Some(n) = l.strip_prefix("make_closure ") {
+            let n: usize = n.parse().unwrap_or(0);
+            // push_addr sits n lines (the loads) above
+            if i >= n + 1 {
+                if let Some(name) = t[i - n - 1].strip_prefix("push_addr ") {
+                    // only lambdas: named functions used as values are not generated by the streams
+                    if name.starts_with("<lambda>") {
+                        if let Some(m) = nlocals(name) {
+                            pairs.push((n, m));
+                        }
+                    }
+                }
+            }
+        } else if let Some(rest) = l.strip_prefix("spawn_task ") {
+            let mut it = rest.splitn(2, ' ');
+            if let (Some(n), Some(name)) = (it.next(), it.next()) {
+                if let (Ok(n), Some(m)) = (n.parse::<usize>(), nlocals(name)) {
+                    pairs.push((n, m));
+                }
+            }
+        }
+    }
+    pairs.sort();
+    pairs.iter().map(|(c, l)| format!("{c}:{l}")).collect::<Vec<_>>().join(" ")
 }
 
 // ------------------------------------------------------------------------------------------------
